@@ -132,7 +132,9 @@ theorem stepRegs_inRange {b : Builder} (h : ScopeOk b) (h0 : 0 < b.env.namespace
     unfold prefixRegs at hr
     split at hr
     · cases hr
-    · simp only [List.mem_cons, List.not_mem_nil, or_false] at hr
+    · split at hr
+      · cases hr
+      simp only [List.mem_cons, List.not_mem_nil, or_false] at hr
       rcases hr with rfl | rfl <;> trivial
   intro r hr
   cases t with
@@ -149,7 +151,10 @@ theorem stepRegs_inRange {b : Builder} (h : ScopeOk b) (h0 : 0 < b.env.namespace
     | close pfx loc => exact (elementNameRegs_below hst _ _ _ r hr).inRange (Nat.le_refl _)
     | empty => exact hopen r hr
   | pi target content sp =>
-    simp only [Builder.stepRegs, List.mem_singleton] at hr
+    simp only [Builder.stepRegs] at hr
+    split at hr
+    · cases hr
+    simp only [List.mem_singleton] at hr
     subst hr
     exact h0
   | text t => cases hr
